@@ -67,6 +67,18 @@ pub fn hull_case(cx: &mut Ctx, n: u64, case: &Value) {
     for k in 0..2usize {
         todo.push(&maps[(n as usize + cx.seed as usize + 3 * k) % maps.len()]);
     }
+    // "large coordinates where the farthest-point selection is subject to rounding": exact translations / scalings that
+    // put the lattice next to 2^50 (ulp 1/4), 2^52 (ulp 1) and at 1e8 with steps of 2^-24 (51 significant bits)
+    let p2 = |k: i32| 2f64.powi(k);
+    let large = [
+        crate::gj::ExactMap { name: "tr_2p50", m: [1.0, 0.0, p2(50), 0.0, 1.0, -p2(50)], axis: true },
+        crate::gj::ExactMap { name: "tr_2p52", m: [1.0, 0.0, -p2(52), 0.0, 1.0, p2(52)], axis: true },
+        crate::gj::ExactMap { name: "fine_1e8", m: [p2(-24), 0.0, 1.0e8, 0.0, p2(-24), 1.0e8], axis: true },
+        crate::gj::ExactMap { name: "tr_2p50_mixed", m: [1.0, 0.0, p2(50), 0.0, 1.0, 3.0], axis: true },
+    ];
+    for m in &large {
+        todo.push(m);
+    }
     for m in todo {
         let mut want: Vec<Coord<f64>> = ring.iter().map(|c| m.apply(*c)).collect();
         if m.det() < 0.0 {
